@@ -350,6 +350,27 @@ pub fn generate(check: &str, tier: &str, seed: u64) -> Scenario {
     let mut cr = Rng::stream(seed, "config");
     let thorough = tier == "thorough";
     let mut tag = 0u32;
+    // C14 "across ... crashes": a sixth of its runs are fault workloads (those of C20) with one
+    // failed call or a short episode at a random position; only the file discipline is judged
+    if check == "C14" && Rng::stream(seed, "c14-fault").one_in(6) {
+        let mut scn = generate("C20", tier, seed);
+        scn.check = "C14".to_string();
+        if let Body::Store(st) = &mut scn.body {
+            let mut fr = Rng::stream(seed, "c14-fault-position");
+            let nops = st.threads[0].len() as u64;
+            let nth = 2 + fr.below(6 * nops + 4);
+            let mode = match fr.below(6) {
+                0 => 1u8,
+                1 => 0x10,
+                2 => 0x80 | 0x20,
+                3 => 0x30,
+                _ => 0,
+            };
+            st.fault = Some((nth, if mode & 0x80 != 0 { libc::ENOSPC } else { libc::EIO }, mode));
+            st.fault_reads = false;
+        }
+        return scn;
+    }
     match check {
         "C19" if cr.one_in(4) => gen_conc(check, seed, &mut r, &mut cr, &mut tag, false),
         "C01" | "C02" | "C05" | "C12" | "C13" | "C14" | "C19" => {
